@@ -156,49 +156,47 @@ Print Assumptions unserialize_accepts_iff.
 
 (* ====================================================================== (4) JSON value <-> tree *)
 (* The reference reading (JsonSpec: what the format's own rules give) inverts the reference
-   encoding for every value: 64-bit ints, finite floats (they stay floats), byte strings, lists,
+   encoding for every value: 64-bit ints, finite floats (they stay floats), UTF-8 strings, lists,
    objects and keyed arrays with distinct keys, any nesting, in both decode modes. *)
 Theorem json_spec_roundtrip : forall ib assoc v, JsonSpec.spec_ok v = true ->
   exists t, spec_to_json ib v = Some t /\ spec_of_json assoc t = view assoc v.
 Proof. exact spec_roundtrip_l. Qed.
 Print Assumptions json_spec_roundtrip.
 
-(* Today's json_encode is that reference encoding on every value without a keyed array and
-   without a float that prints like an integer ... *)
-Theorem json_encoder_agrees : forall ib v, enc_ok v = true -> to_json ib v = spec_to_json ib v.
+(* json_encode IS the reference encoding, for every value (keyed arrays become objects, floats keep
+   a fraction, NaN / INF / text that is not UTF-8 are refused with false) *)
+Theorem json_encoder_agrees : forall ib v, to_json ib v = spec_to_json ib v.
 Proof. exact encoder_agrees_l. Qed.
 Print Assumptions json_encoder_agrees.
 
-(* ... today's default-mode json_decode is the reference reading on every object text whose
-   integer literals fit 64 bits ... *)
-Theorem json_decode_default_agrees : forall t, is_obj t = true -> ints_ok t = true ->
-  decode_default t = Some (spec_of_json false t).
-Proof. exact decode_default_agrees_l. Qed.
+(* default-mode json_decode is the reference reading (key order, exact 64-bit ints, larger
+   literals as floats, nesting limit) on every text whose top level is an object ... *)
+Theorem json_decode_default_agrees : forall depth t, is_obj t = true ->
+  json_decode false depth t = spec_decode false depth t.
+Proof. exact json_decode_default_agrees_l. Qed.
 Print Assumptions json_decode_default_agrees.
 
-(* ... and today's assoc-mode json_decode is the reference reading on every text whose numbers
-   survive the detour through float64 and whose objects have no empty key. *)
-Theorem json_decode_assoc_agrees : forall t, exact_tokens t = true -> keys_ok t = true ->
-  decode_assoc t = Some (spec_of_json true t).
-Proof. exact decode_assoc_agrees_l. Qed.
+(* ... and assoc-mode json_decode is the reference reading on every text, any top level, in which
+   no object has the empty string as a key. *)
+Theorem json_decode_assoc_agrees : forall depth t, keys_ok t = true ->
+  json_decode true depth t = spec_decode true depth t.
+Proof. exact json_decode_assoc_agrees_l. Qed.
 Print Assumptions json_decode_assoc_agrees.
 
-(* "the matching decoder inverts it exactly", for today's code, on those classes *)
-Theorem json_roundtrip_default : forall ib l, let v := PMap l in
-  enc_ok v = true -> JsonSpec.spec_ok v = true ->
-  json_decode false (json_encode ib v) = Some (view false v).
+(* "the matching decoder inverts it exactly" *)
+Theorem json_roundtrip_default : forall ib depth l, let v := PMap l in
+  JsonSpec.spec_ok v = true -> (nesting (view false v) <= depth)%Z ->
+  exists t, json_encode ib v = Some t /\ json_decode false depth t = Some (view false v).
 Proof. exact json_roundtrip_default_l. Qed.
 Print Assumptions json_roundtrip_default.
 
-Theorem json_roundtrip_assoc : forall ib v,
-  enc_ok v = true -> JsonSpec.spec_ok v = true -> assoc_ok ib v = true ->
-  json_decode true (json_encode ib v) = Some (view true v).
+Theorem json_roundtrip_assoc : forall ib depth v,
+  JsonSpec.spec_ok v = true -> vkeys_ok v = true -> (nesting (view true v) <= depth)%Z ->
+  exists t, json_encode ib v = Some t /\ json_decode true depth t = Some (view true v).
 Proof. exact json_roundtrip_assoc_l. Qed.
 Print Assumptions json_roundtrip_assoc.
 
-(* REFUTED outside those classes (witnesses in Examples.v, each a known finding demonstrated on the
-   implementation): keyed arrays lose their keys, integral floats come back as ints, NaN/INF turn
-   the whole text into null, a non-object top level decodes to NULL in default mode, integer
-   literals beyond 64 bits make the default decode fail, integers above 2^53 change value in assoc
-   mode, the empty key is lost in assoc mode.  Not modelled: the text layer (encoding/json), object
-   key order (random in the implementation; compared as unordered), the ignored depth argument. *)
+(* REFUTED outside those classes (witnesses in Examples.v, known findings demonstrated on the
+   implementation): in default mode a top-level array, scalar or null does not decode to itself
+   (pinned by the repository's own tests/php/json_decode.php); in assoc mode the empty key is lost.
+   Not modelled: the text layer (encoding/json: syntax, escapes, number spelling). *)
